@@ -65,7 +65,6 @@ def mon_c01(sc, obs):
         if op[0] in (7, 8, 10):
             continue
         for i, (l, u) in enumerate(after):
-            # float32 rounding is not modelled: outside the exact dyadic domain allow a few ulps
             # float32 rounding is not modelled: a bound off the coarse dyadic grid may be a rounded result, allow a few ulps
             tol = F(0) if (l.denominator <= 1024 and u.denominator <= 1024) else FLOAT_TOL
             if not (l - tol <= hidden[i] <= u + tol):
@@ -158,6 +157,14 @@ def run_k3(ctx, comp, scs, monitors, hashseeds=(0,)):
             oo = sx.loads(o)
             for mn in monitors:
                 r = MONITORS[mn](lo, oo)
+                if r and mn == "c01_sound" and r[2] is None:
+                    # known finding float32-rounding-amplified: the interpretation is excluded only in the part of the trace
+                    # where the exact model has left the float32-exact domain (comparison truncated there, equal before), and
+                    # the exact model itself keeps the interpretation inside all bounds throughout
+                    k = lines.index(line)
+                    ok, ncmp, trunc = lib.compare_ops(m[k], o)
+                    if ok and trunc and MONITORS[mn](lo, sx.loads(m[k])) is None:
+                        r = (r[0], r[1] + f" [exact model: interpretation inside all bounds; float32-exact domain left at op #{ncmp}]", "float32-rounding-amplified")
                 if r:
                     ctx.violation(mn, line, hs, r[0], r[1], r[2])
     return m, impl, lines
@@ -184,6 +191,11 @@ def check_C01(ctx):
     st, pr = standard_prologue(ctx)
     n = 500 if ctx.quick else 6000
     scs, meta = k3_batch(ctx, "c01", n, mode_mix=("consistent", "consistent", "consistent", "free"))
+    # witness of the recorded known finding (float32 rounding slip amplified by a weight above 1) runs first
+    import os
+    with open(os.path.join(lib.VERIF, "harness", "corpus", "kf_c01_float_amplified.txt")) as f:
+        scs.insert(0, sx.loads(f.read().strip()))
+    meta.insert(0, {"mode": "consistent", "hidden": None, "nobj": 10, "kinds": [0, 1, 2, 3, 4, 6]})
     run_k3(ctx, "K3/K4 propositional engine", scs, ["c01_sound"])
     ctx.cov["distribution"] = dist(meta)
     ctx.assumptions.append("rational interpretations (extension to real ones by density of rational points in rational polyhedra: paper argument)")
@@ -606,6 +618,11 @@ def mon_c20(sc, obs):
 def check_C20(ctx):
     st, pr = standard_prologue(ctx)
     scs, meta = gen_c20(ctx, 400 if ctx.quick else 5000)
+    # witness of the recorded known finding (float32 rounding slip amplified by a weight above 1) runs first
+    import os
+    with open(os.path.join(lib.VERIF, "harness", "corpus", "kf_c01_float_amplified.txt")) as f:
+        scs.insert(0, sx.loads(f.read().strip()))
+    meta.insert(0, {"mode": "consistent", "hidden": None, "nobj": 10, "kinds": [0, 1, 2, 3, 4, 6]})
     run_k3(ctx, "K4 source/query-restricted inference", scs, ["c20_local", "c01_sound"])
     ctx.cov["distribution"] = dist(meta)
     ctx.cov["with_query"] = sum(1 for s in scs if s[6])
